@@ -26,7 +26,7 @@ from ..monitors import EvalTracer
 
 glom = env.bind()
 import glom.core as gcore  # noqa: E402
-from glom import (T, S, A, Vars, Coalesce, Match, M, Fold, Sum, Flatten, Merge, Val, Spec, Pipe, Switch, Check, Iter, Assign, Call,  # noqa: E402
+from glom import (T, S, A, Vars, Glommer, Invoke, Coalesce, Match, M, Fold, Sum, Flatten, Merge, Val, Spec, Pipe, Switch, Check, Iter, Assign, Call,  # noqa: E402
                   GlomError, Path, Or, glom as G)
 from glom.grouping import Group, First, Max, Limit  # noqa: E402
 from glom.reduction import Count  # noqa: E402
@@ -135,7 +135,7 @@ def signature(o):
 
 def run_program(prog):
     target = prog['target']()
-    o = call(G, target, prog['spec'](), **prog.get('kw', {}))
+    o = call(prog.get('entry', G), target, prog['spec'](), **prog.get('kw', {}))
     sig = signature(o)
     if 'post' in prog:
         sig += (prog['post'](target, o),)
@@ -206,8 +206,21 @@ def programs(n_yields):
         dict(name='shared-vars-a', target=lambda: {'me': 'a'}, spec=lambda: _shared_vars(n_yields)),
         dict(name='shared-vars-b', target=lambda: {'me': 'b'}, spec=lambda: _shared_vars(n_yields)),
         # ONE Iter(..).unique() pipeline object shared by overlapping calls: each call de-duplicates its own stream
-        dict(name='shared-unique', target=lambda: [i % 3 for i in range(max(n_yields, 1))], spec=lambda: _shared_unique()),
+        dict(name='shared-unique', target=lambda: [i % 3 for i in range(max(n_yields, 1))], spec=lambda: _shared_unique(),
+             fresh=lambda: Iter(Y).unique().map(T * 10).all()),
         dict(name='shared-unique-b', target=lambda: [(i + 1) % 4 for i in range(max(n_yields, 1))], spec=lambda: _shared_unique()),
+        # ONE Iter pipeline object evaluated through two different registries (plain glom, and a Glommer that iterates Rows
+        # objects with a header line): each call iterates its target the way ITS registry says
+        dict(name='shared-iter-default-registry', target=lambda: Rows(['x', 'y'][:max(min(n_yields, 2), 1)]), spec=lambda: _shared_iter(), fresh=lambda: Iter(Y).map(T * 2).all()),
+        dict(name='shared-iter-own-registry', target=lambda: Rows(['x', 'y'][:max(min(n_yields, 2), 1)]), spec=lambda: _shared_iter(), entry=_ROWS_GLOMMER.glom,
+             fresh=lambda: Iter(Y).map(T * 2).all()),
+        # ONE Invoke object whose **kwargs come from the target (different keys per call) on top of constants
+        dict(name='shared-invoke-star-a', target=lambda: {'opts': {'upper': True}}, spec=lambda: _shared_invoke(),
+             fresh=lambda: Invoke(_kw_collect).constants(sep=', ').star(kwargs=(Y, 'opts'))),
+        dict(name='shared-invoke-star-b', target=lambda: {'opts': {}}, spec=lambda: _shared_invoke(),
+             fresh=lambda: Invoke(_kw_collect).constants(sep=', ').star(kwargs=(Y, 'opts'))),
+        dict(name='shared-invoke-star-c', target=lambda: {'opts': {'lower': 1, 'sep': '|'}}, spec=lambda: _shared_invoke(),
+             fresh=lambda: Invoke(_kw_collect).constants(sep=', ').star(kwargs=(Y, 'opts'))),
         # every call raises an exception of ITS OWN class; all these classes share one __name__
         dict(name='same-named-exceptions', target=lambda: {'cls': type('NotFound', (LookupError,) if next(_serial) % 2 else (ValueError,), {})},
              spec=lambda: chain(T) + (lambda t: (_ for _ in ()).throw(t['cls']('nf')),),
@@ -236,6 +249,32 @@ def _shared_first(n):
 
 _SHARED_COAL = {}
 _SHARED_VARS = {}
+
+
+class Rows(list):
+    """a list subclass that the private Glommer below iterates with a header line"""
+
+
+_ROWS_GLOMMER = Glommer()
+_ROWS_GLOMMER.register(Rows, iterate=lambda rows: iter(['hdr'] + list(rows)))
+_SHARED_ITER = []
+_SHARED_INVOKE = []
+
+
+def _shared_iter():
+    if not _SHARED_ITER:
+        _SHARED_ITER.append(Iter(Y).map(T * 2).all())
+    return _SHARED_ITER[0]
+
+
+def _kw_collect(**kw):
+    return sorted(kw.items())
+
+
+def _shared_invoke():
+    if not _SHARED_INVOKE:
+        _SHARED_INVOKE.append(Invoke(_kw_collect).constants(sep=', ').star(kwargs=(Y, 'opts')))
+    return _SHARED_INVOKE[0]
 
 
 _SHARED_UNIQUE = []
@@ -350,6 +389,18 @@ def enumerated(col, rng, mon, n_threads, n_yields, max_schedules, combos, self_s
     P = programs(n_yields)
     isolated = {p['name']: run_program(p) for p in P}
     again = {p['name']: run_program(p) for p in P}
+    # the degenerate schedule - one call after the other, no overlap - with a spec object that other calls (of this or another
+    # program, through this or another registry) have used before: same outcome as with a freshly built equal spec object
+    for p in P:
+        if 'fresh' in p:
+            alone = run_program(dict(p, spec=p['fresh']))
+            col.count('fresh_object_baselines')
+            for which, got in (('first', isolated[p['name']]), ('second', again[p['name']])):
+                if got != alone:
+                    col.violation('C20/sequential-reuse-of-shared-object-differs-from-fresh-object:' + p['name'],
+                                  'program %s, %s sequential run with the shared spec object: %s ; with a freshly built equal spec: %s'
+                                  % (p['name'], which, short(got, 300), short(alone, 300)), {'program': p['name']})
+                    return
     for name in isolated:
         if isolated[name] != again[name]:
             col.fail_inconclusive('program %s is not deterministic when run alone' % name)
@@ -507,7 +558,7 @@ def reentrant(col, rng):
         """a callable that evaluates `prog` re-entrantly and reports / re-raises"""
         def fn(target):
             inner_target = prog['target']()
-            o = call(G, inner_target, prog['spec'](), **prog.get('kw', {}))
+            o = call(prog.get('entry', G), inner_target, prog['spec'](), **prog.get('kw', {}))
             if mode == 'record':
                 sig = signature(o)
                 if 'post' in prog:
